@@ -17,7 +17,9 @@ func init() {
 	register(&CheckDef{Name: "meta", Props: []string{"C09", "C10", "C11"}, Run: runMeta, Replay: replayMeta})
 }
 
-var tokMeta = []string{"x", "v", "-", "--", "-a", "--aa", "-a=true", "-b", "-ab", "-ba", "-o", "-ov", "-o=v", "--out", "--out=v", "-aov", "-ao"}
+var tokMeta = []string{"x", "v", "-", "--", "-a", "--aa", "-a=true", "-b", "-ab", "-ba", "-o", "-ov", "-o=v", "--out", "--out=v", "-aov", "-ao",
+	// a value made of characters that matter elsewhere (underscore, equals sign, dash), in every spelling
+	"w_=-z", "-ow_=-z", "--out=w_=-z"}
 var tokMetaSm = []string{"x", "--", "-a", "--aa", "-b", "-ab", "-ba", "-o", "-ov", "--out=v", "-ao"}
 var tokTail = []string{"x", "-a", "-z", "--zz", "--", "-", "-o", "-o="}
 
